@@ -47,6 +47,12 @@ TEXT = {
         "note": NOTE_COMMON + " Before the fix: commit 076ec87 the exact statement was false (F1).",
         "technique": "Lean 4 refinement theorem (coin map = declarative spec) + differential execution + reference-map oracle",
     },
+    "C03": {
+        "level": "C03_perm / C03_perm_reject: for every state and every batch of hash-distinct transactions, any permutation of an accepted batch is accepted with the same observable state (every coin, count, stake, the transaction list, fee pool, tips, speed) and a rejected batch is rejected in every order; C03_forall_perm, C03_max_perm, C03_satsum_perm, C03_txset_perm: the reductions used by the parallel code are order-independent folds; a machine-checked witness shows which side condition is really needed (a batch spending the pseudo-coin of a grandfathered faucet is order-dependent). The real code is run on every permutation of every small generated batch, one transaction at a time in dependency order, under several rayon pool sizes with byte-identical outputs required, and through apply_block with arbitrarily ordered transaction sets.",
+        "design_ref": "DESIGN.md §4 C03",
+        "note": NOTE_COMMON + " Thread scheduling and hash-set iteration order are exercised, not modelled (partial). Before the fix: commit 076ec87 the theorem was false (F1).",
+        "technique": "Lean 4 Perm-invariance theorem + permutation/sequential/rayon differential execution",
+    },
     "C04": {
         "level": "C04_gate: in an accepted batch every input of every transaction has a covenant in the transaction whose hash is the coin's, that decodes, and that evaluates to a true value in that input's own environment (coin id, coin data and height, spender index, last header); C04_missing/undecodable/false force rejection; C04_env fixes the eleven heap slots; C04_std_new/legacy: the standard covenants approve iff the signature slot holds a valid Ed25519 signature of the transaction hash (symbolic execution over an arbitrary transaction). Accept/reject of every generated batch is compared with the model (which runs the covenants itself); a harness fact re-evaluates every input's covenant independently with Covenant::execute.",
         "design_ref": "DESIGN.md §4 C04",
@@ -118,6 +124,5 @@ TEXT = {
 NOTES = "See DESIGN.md. known_findings.json lists genuine defects that were repaired (fixed:) or recorded (open)."
 
 NOT_YET = {
-    "C03": "in progress",
     "C09": "in progress",
 }
